@@ -412,4 +412,7 @@ func TestC10(t *testing.T) {
 	c := c10
 	c.Checks = n(25, 150)
 	c.Run(t)
+	r := c10Res
+	r.Checks = n(40, 600)
+	r.Run(t)
 }
